@@ -394,6 +394,12 @@ def small_histories(length, reduced=True, tiny=False):
                 yield {'ids': SHAPE_IDS.get(name, SMALL_IDS), 'nw': SMALL_NW, 'shape': name, 'held': held,
                        'ops': [list(o) for o in shape] + [list(o) for o in combo]}
     if length == 1 and not tiny:
+        # the same single calls with their sequence argument handed over as a one-shot iterator
+        for name, shape in SHAPES.items():
+            for o in alpha:
+                if o[0] in ('reorder', 'set_children', 'move', 'set_preds', 'set_succs') and not any(isinstance(x, list) and any(isinstance(y, str) for y in x) for x in o):
+                    yield {'ids': SHAPE_IDS.get(name, SMALL_IDS), 'nw': SMALL_NW, 'shape': name, 'held': True, 'iter': True,
+                           'ops': [list(x) for x in shape] + [list(o)]}
         # the same single calls on tasks of a user subclass of Task (hierarchy / order calls only)
         for name, shape in SHAPES.items():
             for o in alpha:
